@@ -1109,3 +1109,21 @@ package channel
 //@   callsite Resolve : unmarshalledFrom(def) == marshalOf(appDef(x.App))
 //@   ensures encErr == nil && decErr == nil ==> !desync(r0) && rcount(r0) - old(rcount(r0)) == wcount(w0) - old(wcount(w0))
 //@   ensures encErr == nil && decErr == nil ==> stateEqc(y, x)
+
+// Parameters: challenge duration, the participants (summary token: lemma wallet.verifRoundTripAddressMapArray), the optional
+// app, nonce, the two flags, the auxiliary bytes. The decoder rebuilds the parameters with NewParams, i.e. it may refuse values
+// the constructor refuses, and resolves the app from exactly the identifier bytes that were written.
+//@ pred paramsWFc(x *Params) = x != nil && x.Nonce != nil && val(x.Nonce) >= 0 && x.App != nil &&
+//@   (!isNoApp(x.App) ==> marshalLen(appDef(x.App)) <= 65535) && (forall i int :: 0 <= i && i < len(x.Parts) ==> addrMapWF(x.Parts[i]))
+//@ pred paramsEqc(y *Params, x *Params) = y != nil && y.ChallengeDuration == x.ChallengeDuration && len(y.Parts) == len(x.Parts) &&
+//@   (forall i int :: 0 <= i && i < len(x.Parts) ==> addrMapEq(y.Parts[i], x.Parts[i])) && (isNoApp(x.App) ==> isNoApp(y.App)) && y.App != nil &&
+//@   y.Nonce != nil && val(y.Nonce) == val(x.Nonce) && y.LedgerChannel == x.LedgerChannel && y.VirtualChannel == x.VirtualChannel && y.Aux == x.Aux
+//@ codec Params wf paramsWFc eq paramsEqc by verifRoundTripParams
+//@ func verifRoundTripParams
+//@   tokenmodel
+//@   requires w0 != nil && r0 != nil && paramsWFc(x)
+//@   modifies *
+//@   inlines (*Params).Encode, (*Params).Decode, (OptAppEnc).Encode, (OptAppDec).Decode
+//@   callsite Resolve : unmarshalledFrom(def) == marshalOf(appDef(x.App))
+//@   ensures encErr == nil && decErr == nil ==> !desync(r0) && rcount(r0) - old(rcount(r0)) == wcount(w0) - old(wcount(w0))
+//@   ensures encErr == nil && decErr == nil ==> paramsEqc(y, x)
